@@ -126,6 +126,7 @@ impl Prop for C03 {
             4 => (arb_d(), arb_d(), 0u8..8).prop_map(|(x, y, mode)| Case { x, y: Rhs::Dec(y), mode }),
             3 => (arb_d(), arb_int(), any::<bool>(), 0u8..8).prop_map(|(x, i, l, mode)| Case { x, y: if l { Rhs::IntL(i) } else { Rhs::IntR(i) }, mode }),
             2 => (arb_related_pair(), 0u8..8).prop_map(|((x, y), mode)| Case { x, y: Rhs::Dec(y), mode }),
+            2 => (arb_unit_pair(), 0u8..8).prop_map(|((x, y), mode)| Case { x, y: Rhs::Dec(y), mode }),
             2 => (arb_word_pair(), arb_word_int(), 0u8..3, 0u8..8).prop_map(|((x, y), i, k, mode)| {
                 let y = match k { 0 => Rhs::Dec(y), 1 => Rhs::IntR(i), _ => Rhs::IntL(i) };
                 Case { x, y, mode }
